@@ -12,7 +12,8 @@ from harness.lib import common
 
 PROP = 'C16'
 PROP_FILE = 'Props/C16.v'
-THEOREMS = ['C16_line_structure', 'C16_reading_unique', 'C16_target', 'C16_one_host', 'C16_no_cross_host_state']
+THEOREMS = ['C16_line_structure', 'C16_reading_unique', 'C16_target', 'C16_one_host', 'C16_no_cross_host_state',
+            'C16_cookie_policy_domain', 'C16_cookie_host_only', 'C16_cookie_single_label', 'C16_cookie_ip_exact']
 TRUSTED = [
     'hand-written model Model/HttpReq.v of request.py/web.py/stream.py/namevalue.py/cookiewrapper.py/processor/web.py, '
     'tied by the vm_compute correspondence of this run (bytes of every hop + how the fetch ended)',
@@ -26,6 +27,12 @@ TRUSTED = [
     'real record holds); str.title()/str.capitalize() round trip through urllib is taken as identity (true for ASCII names; '
     'generated header names are ASCII); the theorems assume no request-factory field is another spelling of Host/Cookie/'
     'Authorization/Referer (fname), sampled on every case',
+    'hand-written model Model/CookiePolicy.v of wpull/cookie.py (is_ip_literal, cookie_domain_ok, DeFactoCookiePolicy.set_ok_domain / '
+    'return_ok_domain / set_ok limits), tied by evaluating it in Coq on every distinct decision the real policy took in the cookie stage; '
+    'http.cookiejar.DefaultCookiePolicy (the parent class: path, port, secure, version, blocked-domain rules and its own liberal domain rules) '
+    'and http.cookiejar.CookieJar (parsing Set-Cookie, filing under eff_request_host incl. the ".local" suffix of dot-less hosts, consulting '
+    'policy.set_ok / return_ok for every cookie, expiry) stay ORACLES: the theorems hold for arbitrary parent verdicts; that the jar really '
+    'consults the policy and sends nothing else is carried by the cookie stage (RFC 6265 predicate on captured request bytes with the real jar)',
     'the reader read_head of Spec/HttpWire.v (CRLF lines, first empty line ends the head, SP-split request line, first-colon '
     'field split, leading OWS dropped) as the meaning of "what the receiver sees"',
     'fake connection pool / scripted connection of harness/impl/c16_impl.py (captures the first write of each exchange)',
@@ -36,6 +43,7 @@ ASSUMPTIONS = [
     'without space/colon in the spelling NameValueRecord keeps, values without CR/LF, and none is named Host/Cookie/Authorization '
     '(user-supplied; a stated precondition of the theorems, sampled on every case; the correspondence also runs cases that break it)',
     'the cookie jar\'s header value contains no CR/LF (sampled on every jar answer of every case)',
+    'cookie theorems: the stored domain and the request hosts are ASCII (str.lower / str.isdigit modelled on ASCII; non-ASCII decisions are counted and skipped in the tie)',
     'http.cookiejar adds the Cookie header only when the request has none, as unredirected header listed first (sampled through the byte comparison)',
 ]
 
@@ -796,6 +804,7 @@ def _cookie_stage(ctx, n):
             seen.add(why)
             viol.append({'why': why, 'hop': 0, 'hop_kind': 'cookie-jar', 'detail': detail, 'case': {'cookie_scenario': sc}})
     dis += _cookie_policy_model(results, stats, 600 if n <= 1000 else 6000)
+    dis += _cookie_direct(r, stats, 700 if n <= 1000 else 5000)
     return scenarios, results, viol, dis, stats
 
 
@@ -810,6 +819,42 @@ Definition h := unhex6.
 
 def _ascii(*xs):
     return all(x is None or all(ord(ch) < 128 for ch in x) for x in xs)
+
+
+def _cookie_direct(r, stats, n):
+    """wpull.cookie.cookie_domain_ok and is_ip_literal as pure functions vs Model/CookiePolicy.v on a grid of
+    (stored domain, domain_specified, request host): label boundaries, single labels, IP literals, .local, case"""
+    hosts = sorted({_bare(h).lower() for g in CK_GROUPS for h in g if all(ord(c) < 128 for c in h)} |
+                   {'alpha.local', 'a.b.c.d.test', '1.2.3.4', '1.2.3.04', '1.2.3.4a', 'a.1', '::1', '[::1]', 'x', '', 'test.', '.x.test'})
+    triples = []
+    for _ in range(n):
+        h = r.choice(hosts)
+        labels = h.split('.')
+        cands = [h, '.' + h, h.upper(), h[1:], '.' + h[1:], 'x' + h, h + '.local', '.' + h + '.local', 'local', '.local', '',
+                 '.', labels[-1], '.' + labels[-1], '.'.join(labels[1:]), '.' + '.'.join(labels[1:]), '..' + h, r.choice(hosts),
+                 '.' + r.choice(hosts)]
+        triples.append([r.choice(cands), r.random() < 0.7, r.choice([h, h, h.upper(), r.choice(hosts)])])
+    triples = [list(t) for t in sorted({tuple(t) for t in triples})]
+    out = common.run_impl('c16_cookie_impl.py', {'direct': triples})
+    if 'direct' not in out:
+        return [{'note': 'wpull.cookie.cookie_domain_ok / is_ip_literal could not be called directly', 'out': str(out)[:400]}]
+    terms = ['Bool.eqb (cookie_domain_ok (%s) %s (%s)) %s && Bool.eqb (is_ip_literal (%s)) %s' % (
+        h6(d), coq_bool(sp), h6(h), coq_bool(v[0]), h6(h), coq_bool(v[1])) for (d, sp, h), v in zip(triples, out['direct'])]
+    stats['direct_domain_function_cases'] = len(terms)
+    stats['direct_domain_function_true'] = sum(1 for v in out['direct'] if v[0])
+    per = 400
+    bodies = [COOKIE_HEADER + 'Definition checks : list bool := [\n  ' + ';\n  '.join(terms[i:i + per]) +
+              '].\nEval vm_compute in (failing checks).\n' for i in range(0, len(terms), per)]
+    dis = []
+    for bi, (rc, o) in enumerate(common.coq_eval_many(bodies)):
+        fails = common.parse_vm_list(o) if rc == 0 else None
+        if fails is None:
+            dis.append({'shard': bi, 'coq_error': o[-800:], 'note': 'cookie domain function model evaluation failed'})
+            continue
+        for f in fails:
+            dis.append({'note': 'wpull.cookie.cookie_domain_ok / is_ip_literal differs from Model/CookiePolicy.v',
+                        'input': triples[bi * per + int(f)], 'impl': out['direct'][bi * per + int(f)]})
+    return dis
 
 
 def _cookie_policy_model(results, stats, max_set_ok=600):
@@ -853,6 +898,7 @@ def _cookie_policy_model(results, stats, max_set_ok=600):
     stats['policy_decisions_evaluated_in_coq'] = len(terms)
     stats['policy_decisions_skipped_non_ascii'] = skipped
     stats['policy_domain_refusals_by_wpull_code'] = sum(1 for k in keys if k[0] != 'set_ok' and k[4] and not k[5])
+    stats['policy_set_ok_refusals_by_wpull_limits'] = sum(1 for k in keys if k[0] == 'set_ok' and k[1] and not k[9])
     per = 400
     bodies = [COOKIE_HEADER + 'Definition checks : list bool := [\n  ' + ';\n  '.join(terms[i:i + per]) +
               '].\nEval vm_compute in (failing checks).\n' for i in range(0, len(terms), per)]
@@ -1013,7 +1059,12 @@ LEVEL_TEXT = ('Coq theorems, all closed under the global context, for EVERY requ
               'jar answered for that hop\'s URL, a Referer made by wpull is the parent URL without user-info). Preconditions (stated, sampled on every run): url_clean '
               'URL components (C10), request-factory fields with token names / CR-LF-free values / not named Host, Cookie, Authorization, CR-LF-free jar answers. '
               'The model of the request construction is hand-written and tied to the code on every run by evaluating it inside Coq (vm_compute) against the bytes '
-              'the real WebSession/Stream write to a scripted connection, hop by hop.')
+              'the real WebSession/Stream write to a scripted connection, hop by hop.'
+              ' Cookies: the jar is an oracle in those theorems; WHICH cookies it may hand out is covered by C16_cookie_policy_domain / _host_only / _single_label / '
+              '_ip_exact about wpull\'s own policy code (a filter on top of http.cookiejar\'s DefaultCookiePolicy, whose verdicts are arbitrary in the theorems): a cookie accepted '
+              'from host A and returned for host B satisfies RFC 6265 domain matching (Domain=d: both hosts domain-match d, a single-label d only for d = A = B, an IP address only '
+              'for itself; no Domain: A = B up to http.cookiejar\'s h / h.local identification); and by the cookie stage of the correspondence: the REAL CookieJar + DeFactoCookiePolicy + '
+              'CookieJarWrapper under the real WebSession over multi-host chains with every Domain/Path shape, RFC 6265 5.3/5.4 predicate on the captured request bytes.')
 LEVEL_NOTE = ('Trusted: Coq kernel + vm_compute; the hand-written model and this harness; URL parsing is an input (url_clean hypothesis, checked on every '
               'generated URL against the real parser; C10 proves it); the cookie jar is an oracle (which cookies belong to a URL is http.cookiejar\'s domain matching); '
               'field-name normalisation (normalize_name) is not modelled - names enter the model as the real record holds them; user-supplied option values are '
